@@ -52,6 +52,10 @@ func mustLoad() *Prog {
 		fmt.Fprintln(os.Stderr, "contracts:", err)
 		os.Exit(2)
 	}
+	if err := p.setupGhost(); err != nil {
+		fmt.Fprintln(os.Stderr, "contracts:", err)
+		os.Exit(2)
+	}
 	return p
 }
 
@@ -76,6 +80,16 @@ func cmdVerify(args []string) {
 	p := mustLoad()
 	bad := 0
 	keys := fs.Args()
+	if len(keys) == 2 && keys[0] == "lemmas" {
+		rs := solveAll(p.lemmaQueries(keys[1]), "/verif/out/smt/lemmas", *timeout, *all, 16)
+		for _, r := range rs {
+			fmt.Printf("%-8s %-7s %5.2fs %s   %s\n", r.Status, r.Solver, r.TimeS, r.Ob.Name, r.Ob.Descr)
+		}
+		for _, w := range p.warnings {
+			fmt.Println("warning:", w)
+		}
+		return
+	}
 	if len(keys) == 1 && keys[0] == "sweep" {
 		keys = nil
 		for _, fi := range p.sweepFunctions() {
